@@ -109,7 +109,7 @@ where
         writeln!(writer, "pub struct {rust_name} {{")?;
         for (part_name, header) in &soap_operation.headers {
             let field_name = as_field_name(part_name);
-            let rust_type = header.rust_type.xml_name().ok_or(WriterError::InvalidReference)?;
+            let rust_type = to_pascal_case(header.rust_type.xml_name().ok_or(WriterError::InvalidReference)?);
 
             if let Some(namespace) = header.in_namespace.as_ref() {
                 let abbreviation = namespace.abbreviation.as_str();
@@ -146,6 +146,8 @@ where
 
     let body = soap_operation.body.rust_type.xml_name().ok_or(WriterError::InvalidReference)?;
     let body_field_name = as_field_name(&to_snake_case(body));
+    // the struct generated for the element is named in PascalCase
+    let body_type = to_pascal_case(body);
     let xml_name = soap_operation.body.rust_type.xml_name().ok_or(WriterError::InvalidReference)?;
 
     writeln!(writer, "#[derive(Debug, Default, YaSerialize, YaDeserialize)]")?;
@@ -166,10 +168,10 @@ where
             writer,
             "    #[yaserde(prefix = \"{abbreviation}\", rename = \"{xml_name}\")]"
         )?;
-        writeln!(writer, "    pub {body_field_name}: {mod_name}::{body},",)?;
+        writeln!(writer, "    pub {body_field_name}: {mod_name}::{body_type},",)?;
     } else {
         writeln!(writer, "    #[yaserde(rename = \"{xml_name}\")]")?;
-        writeln!(writer, "    pub {body_field_name}: {body},")?;
+        writeln!(writer, "    pub {body_field_name}: {body_type},")?;
     }
     writeln!(writer, "}}")?;
 
